@@ -116,6 +116,8 @@ type DistModel struct {
 	// Alias maps a destination key to the bank account that actually backs it (the module-typed
 	// name of the main account is the main account).
 	Alias map[string]string
+	// LastInflow: per sub-distributor name, the inflow it distributed in the last block (fixed point).
+	LastInflow map[string]Amt
 }
 
 func NewDistModel(subs []DSub) *DistModel {
@@ -198,6 +200,7 @@ func (m *DistModel) entitle(key string, a Amt, share *big.Int, inflow Amt, prima
 
 // Block runs one begin-block of the documented flow.
 func (m *DistModel) Block() {
+	m.LastInflow = map[string]Amt{}
 	mainUndist := Amt{} // fixed point: coins in the main account not assigned to anybody
 	// everything in main beyond the pending entitlements is new inflow for the MAIN source
 	{
@@ -235,6 +238,7 @@ func (m *DistModel) Block() {
 		if inflow.IsZero() {
 			continue
 		}
+		m.LastInflow[sd.Name] = inflow.Clone()
 		rest := inflow.Clone()
 		others := new(big.Int)
 		give := func(dest DAccount, key string, a Amt) {
